@@ -101,4 +101,35 @@ theorem exConflicted : Conflicted exSets eA := by
   have : eB = eA := (hk [eC, eM, eP, eB] (by simp [exSets]) eB).mp ⟨by simp, key_B⟩
   exact absurd this (ne_of_id (by decide))
 
+/-! ## Version 1: the order of the member blocks matters (a finding about the library, reproduced on the Go code)
+
+  Room version 1; `$A0`: @a joined; conflicted: two further joins of @a (`A1`, `A2`) and two invites of @b SENT BY @a
+  (`B1`, `B2`); auth events: create, creator's join, public join rules, `A0`.  `resolveAuthBlock` clears the winner's
+  slot until the phase is over, which also drops `A0`; so the @b block sees "@a has no membership" iff the @a block was
+  resolved first, and the order of the blocks is the (map-iteration) order of the conflicted list. -/
+
+def mk1 (id type : Bytes) (sk : Bytes) (sender : Bytes) (depth : Bytes) (auth : List Bytes) (content : JVal) : Event :=
+  { ver := b!"1", eventID := id,
+    obj := [(b!"type", .str type), (b!"state_key", .str sk), (b!"sender", .str sender), (b!"room_id", .str b!"!r:h"),
+            (b!"origin_server_ts", .num depth), (b!"depth", .num depth),
+            (b!"auth_events", .arr (auth.map (fun a => .arr [.str a, .obj []]))), (b!"prev_events", .arr []), (b!"content", content)] }
+
+def memb (m : Bytes) : JVal := .obj [(b!"membership", .str m)]
+def vC  := mk1 b!"$C:h" b!"m.room.create" [] b!"@c:h" b!"1" [] (.obj [(b!"creator", .str b!"@c:h")])
+def vJC := mk1 b!"$JC:h" b!"m.room.member" b!"@c:h" b!"@c:h" b!"2" [b!"$C:h"] (memb b!"join")
+def vJR := mk1 b!"$JR:h" b!"m.room.join_rules" [] b!"@c:h" b!"3" [b!"$C:h", b!"$JC:h"] (.obj [(b!"join_rule", .str b!"public")])
+def vA0 := mk1 b!"$A0:h" b!"m.room.member" b!"@a:h" b!"@a:h" b!"4" [b!"$C:h", b!"$JR:h"] (memb b!"join")
+def vA1 := mk1 b!"$A1:h" b!"m.room.member" b!"@a:h" b!"@a:h" b!"5" [b!"$C:h", b!"$JR:h", b!"$A0:h"] (memb b!"join")
+def vA2 := mk1 b!"$A2:h" b!"m.room.member" b!"@a:h" b!"@a:h" b!"6" [b!"$C:h", b!"$JR:h", b!"$A0:h"] (memb b!"join")
+def vB1 := mk1 b!"$B1:h" b!"m.room.member" b!"@b:h" b!"@a:h" b!"7" [b!"$C:h", b!"$JR:h", b!"$A0:h"] (memb b!"invite")
+def vB2 := mk1 b!"$B2:h" b!"m.room.member" b!"@b:h" b!"@a:h" b!"8" [b!"$C:h", b!"$JR:h", b!"$A0:h"] (memb b!"invite")
+def vAuth : List Event := [vC, vJC, vJR, vA0]
+
+/-- the same conflicted events, presented in two orders, resolve differently (kernel-evaluated on the model; the Go
+    code answers `nondet:…$B1…|…$B2…` on the corresponding op line) -/
+theorem v1_order_dependent :
+    ((resolveV1 (fun id => id) [vA1, vA2, vB1, vB2] vAuth).map (·.eventID),
+     (resolveV1 (fun id => id) [vB1, vB2, vA1, vA2] vAuth).map (·.eventID)) =
+      ([b!"$A2:h", b!"$B1:h"], [b!"$B2:h", b!"$A2:h"]) := by decide +kernel
+
 end V.StateResSpec.Example
